@@ -13,6 +13,7 @@ import AdaptixProofs.Lemmas.LayoutOverlay
 import AdaptixProofs.Lemmas.LayoutLoadPaths
 import AdaptixProofs.Lemmas.LayoutDump
 import AdaptixProofs.Lemmas.LayoutRoundTrip
+import AdaptixProofs.Lemmas.LayoutPlacement
 
 namespace Adaptix.Layout.C03
 
@@ -146,7 +147,37 @@ theorem child_overrides_parent (own : Overlay) (ownProvs parent : List OverlayPr
     (pov.merge own).map = own.map ++ pov.map := by
   refine ⟨by simp [stackParents, hparent], ?_, ?_, ?_, ?_, rfl⟩ <;> intros <;> simp_all [Overlay.merge]
 
-/-! ## 3. The generated loader -/
+/-! ## 3. The crown builder -/
+
+/-- **The input crown has every field at its documented path.**  Whenever the name-layout provider
+    produces an input layout (overlay merge → mapping → validation → gap filling → sort / group-by crown
+    builder → decoration), then for every path `p` and field id:
+    the crown has the field leaf `id` at `p` **iff** some field of the shape with that id has
+    `pathOf … = some p` — so presented fields sit exactly at their path, skipped fields and extra targets
+    have no leaf, no other field leaf exists — and every remaining leaf is a gap filler whose path ends
+    with a list index. -/
+theorem crown_places_fields (sch : Schema) (style : Style → String → String) (fields : List Field)
+    (l : InpLayout) (h : inputLayout sch style fields = .ok l) :
+    (∀ p id, (p, Leaf.field id) ∈ l.crown.leaves ↔
+        ∃ f ∈ fields, f.id = id ∧
+          pathOf .inp sch style fields (makeInpExtraMove sch.extraIn).targetIds f = some p) ∧
+    (∀ p, (p, Leaf.none) ∈ l.crown.leaves → lastIsIndex p = true) := by
+  obtain ⟨lv, hlv, hmem⟩ := inputLayout_inv sch style fields l h
+  obtain ⟨h1, h2⟩ := makeStructure_mem .inp sch style fields _ lv hlv
+  exact ⟨fun p id => by rw [hmem, h1], fun p hp => h2 p ((hmem _).mp hp)⟩
+
+/-- the same for the output crown: **the dumper's crown and the loader's crown use the same rule** -/
+theorem out_crown_places_fields (sch : Schema) (style : Style → String → String) (fields : List Field)
+    (l : OutLayout) (h : outputLayout sch style fields = .ok l) :
+    (∀ p id, (p, Leaf.field id) ∈ l.crown.leaves ↔
+        ∃ f ∈ fields, f.id = id ∧
+          pathOf .out sch style fields (makeOutExtraMove sch.extraOut).targetIds f = some p) ∧
+    (∀ p, (p, Leaf.none) ∈ l.crown.leaves → lastIsIndex p = true) := by
+  obtain ⟨lv, hlv, hmem⟩ := outputLayout_inv sch style fields l h
+  obtain ⟨h1, h2⟩ := makeStructure_mem .out sch style fields _ lv hlv
+  exact ⟨fun p id => by rw [hmem, h1], fun p hp => h2 p ((hmem _).mp hp)⟩
+
+/-! ## 4. The generated loader -/
 
 /-- **The loader takes each field from exactly the path of its leaf.**  For every crown, debug
     mode, coercion mode, extra move, field loaders and datum: if the generated loader reaches the
@@ -165,6 +196,20 @@ theorem loadCrown_reads_exact_path (cfg : LoadCfg) (crown : InpCrown) (data : Va
     (specTargets cfg crown.policy (specExtra crown data) cfg.move.targetIds)
   rw [hargs]
   simpa [ReadsLeaf] using this
+
+/-- **End to end, loading**: for a layout produced from a schema, a successful load hands every
+    presented field the loaded value found at its *documented* path. -/
+theorem load_reads_documented_path (sch : Schema) (style : Style → String → String) (fields : List Field)
+    (l : InpLayout) (hl : inputLayout sch style fields = .ok l)
+    (cfg : LoadCfg) (data : Val) (args : List (String × Val)) (extra : Option Val)
+    (h : loadModel cfg l.crown data = .ok args extra)
+    (f : Field) (hf : f ∈ fields) (p : Path)
+    (hp : pathOf .inp sch style fields (makeInpExtraMove sch.extraIn).targetIds f = some p) (v : Val)
+    (hv : data.getPath p = some v) :
+    ∃ x, cfg.loader f.id v = .ok x ∧ (f.id, x) ∈ args := by
+  have hleaf : (p, Leaf.field f.id) ∈ l.crown.leaves :=
+    ((crown_places_fields sch style fields l hl).1 p f.id).mpr ⟨f, hf, rfl, hp⟩
+  exact (loadCrown_reads_exact_path cfg l.crown data args extra h p f.id hleaf).1 v hv
 
 /-- **…and from nowhere else**: every argument passed to the constructor is the loaded value found at
     the path of a field leaf, the default of a field whose path is absent, or the extra data handed to
@@ -351,7 +396,7 @@ theorem extra_kwargs_only_unknown_fails :
   · rfl
   · simp [unknownKeys, unknownItems, knownKeys]
 
-/-! ## 4. The generated dumper -/
+/-! ## 5. The generated dumper -/
 
 /-- **The dumper writes each field to exactly the path of its leaf, omit_default removes exactly the
     fields equal to their default, gaps are `None`.**  For a well-formed crown (distinct keys, sieves on
@@ -446,7 +491,7 @@ theorem list_gaps_are_none (cfg : DumpCfg) (obj vals : List (String × Val)) (m 
       | cons c t ih => simp [dumpList, ih]
     simp [dumpCrown, Val.len, this]
 
-/-! ## 5. Loader and dumper agree on the paths -/
+/-! ## 6. Loader and dumper agree on the paths -/
 
 /-- **Refinement of the generated loader**: in every debug mode, strict or not, the generated code reaches
     the constructor call *iff* the datum has the shape the crown asks for (and the extra-target loaders
@@ -507,7 +552,7 @@ theorem dump_load_roundtrip (cfgL : LoadCfg) (cfgD : DumpCfg) (crown : OutCrown)
   intro id hid
   rw [hlook id hid]
 
-/-! ## 6. Non-vacuity: concrete programs evaluated by the kernel -/
+/-! ## 7. Non-vacuity: concrete programs evaluated by the kernel -/
 
 private def exCfg (mode : DebugTrail) : LoadCfg :=
   { mode, strict := true, move := .none,
